@@ -185,3 +185,41 @@ def run_c21(v):
         "random texts mix ASCII, Latin-1, CJK, kana, emoji and multi-byte punctuation; only single string values are highlighted by the engine (arrays are skipped) and generated",
         "the legacy snippet (highlight_field) is judged as one fragment with fragment_size 120",
     ]
+
+
+# ------------------------------------------------------------------------------------------------
+# C22
+# ------------------------------------------------------------------------------------------------
+MC_SUGGEST = """SPECIFICATION Spec
+CONSTANT Variant = "{variant}"
+CONSTANT NDocs = {ndocs}
+INVARIANT LayoutIndependent
+INVARIANT DfIsCount
+INVARIANT SortedBounded
+CHECK_DEADLOCK FALSE
+"""
+
+
+def run_c22(v):
+    quick = v.tier == "quick"
+    mc = lib.tlc_mc("MC_Suggest.tla", _cfg("MC_Suggest_run.cfg", MC_SUGGEST.format(variant="ideal", ndocs=2 if quick else 3)),
+                    timeout=3000, coverage=False, workers=4 if quick else None)
+    lib.require_mc_ok(mc, "MC_Suggest")
+    r = lib.tlc_mc("MC_Suggest.tla", _cfg("MC_Suggest_firstseg_run.cfg", MC_SUGGEST.format(variant="firstseg", ndocs=2)),
+                   timeout=1200, coverage=False, workers=4)
+    lib.expect_mc_violation(r, "MC_Suggest variant firstseg", {"LayoutIndependent", "DfIsCount"})
+    s = _drive(v, "suggest", "random", {"C22"}, ["--scenarios", 6 if quick else 80, "--requests", 30 if quick else 60])
+    v.coverage.update({
+        "states": mc["distinct"], "transitions": mc["states"],
+        "traces_validated_against_impl": s["scenarios"], "requests_judged": s["requests"],
+        "mc_bounds": f"{2 if quick else 3} documents x every subset of 4 terms x every assignment to 2 segments x prefixes ''/r/ru/rus and fuzzy input rust x size 1..3",
+        "broken_variants_refuted_by_model": ["firstseg (doc_freq not summed over segments)"],
+        "samples": s["samples"], "exhaustive": False,
+    })
+    v.assumptions += [
+        "corpora without upserts and deletions; every corpus is indexed in 2-3 segment layouts and every request runs on each layout",
+        "analysis is input: the tokens the field's search analyzer makes of the prefix are logged; that the LAST token (or the raw prefix when there is none; ASCII lower case for keyword fields) is completed is part of the specification",
+        "asserted in full only while the number of matching (segment, term) pairs is below the scan cap (prefix: size*5 clamped to 64..256; fuzzy: max(min(max_expansions, 256), size)); above it only size, order, membership",
+        "fuzzy: max_edits 1..2, max_expansions >= 1; a fuzzy request whose input is shorter than min_length is not asserted (README silent)",
+        "scores: doc_freq, or doc_freq/(distance+1) for fuzzy options, tolerance 1 % + 0.002; the order is judged exactly on the observed f32 scores",
+    ]
